@@ -72,6 +72,15 @@ def run(ctx):
                 if tr > tol * (1 + 1e-6) + 1e-14: viol('C13:cgne:budget', f'CGNE does not return the pseudoinverse to tol {tol} on a matrix of condition {cond} within 500 iterations (true residual {tr:.3e})', inp, ic['residual_norms'][-3:])
                 if ic['converged'] and fro(Xc - pinv(An)) > 10 * cond * cond * tol * math.sqrt(n) + 1e-10: viol('C13:cgne:pinv', 'converged CGNE result is not the pseudoinverse to cond-scaled accuracy', inp, fro(Xc - pinv(An)))
                 if ic['iterations'] != len(ic['residual_norms']): viol('C13:cgne:info', 'iterations != len(residual_norms)', inp)
+            # the flag must be sound for every budget (0 included) and every scale of the data (the breakdown guard is absolute)
+            for sname, scl in (('1', 1.0), ('2^-40', 2.0 ** -40), ('2^-60', 2.0 ** -60), ('2^27', 2.0 ** 27)):
+                for mi in (0, 1, 500):
+                    if scl == 1.0 and mi == 500: continue
+                    try: Xs, isx = solver.CGNEQSolver(tol=1e-6, max_iter=mi).compute(An * scl)
+                    except Exception as e: viol('C13:cgne:raises:scaled', f'CGNE raised {e!r} on a matrix scaled by {sname}', inp); continue
+                    trs = true_res(Xs, An * scl, n)
+                    if isx['converged'] and not trs <= 1e-6 * (1 + 1e-6) + 1e-14: viol('C13:cgne:flag:scaled-or-zero-budget', f'CGNE reports converged with true residual {trs:.3e} > tol 1e-6 (scale {sname}, max_iter {mi})', dict(inp, scale=sname, max_iter=mi), trs, 1e-6)
+                    ctx.count(('cgne-flag', m, n, cond, sname, mi), True)
             ctx.count(('cgne', m, n, cond, [a.t() for row in A for a in row]), K >= 2, sample={'shape': [m, n], 'cond': cond, 'K': K} if (m, n) == (3, 2) else None)
             if len(hist) == K and n >= 2:
                 h = '[' + '; '.join(Ql((Fraction(v) ** 2) * n) for v in hist) + ']'
